@@ -465,3 +465,53 @@ def gen_catslice_table():
                 f'mutatedInPlace := {ls(c)}, sharedMutated := {ls(d)}, skipsScalars := {bb(e)}, privateLen1 := {bb(f)} }}\n\n')
     out += 'end PhotVerif.Gen.CatSliceTable\n'
     return 'CatSliceTable.lean', allsrc, out
+
+
+# ------------------------------------------------------------------ centroid_sources keyword handling
+def gen_centroid_table():
+    path = os.path.join(REPO, 'photutils/centroids/core.py')
+    src = open(path).read()
+    tree = ast.parse(src)
+    fn = next(n for n in tree.body if isinstance(n, ast.FunctionDef) and n.name == 'centroid_sources')
+    loop = next((x for x in ast.walk(fn) if isinstance(x, ast.For)), None)
+    if loop is None:
+        raise Unsupported('centroid_sources: per-source loop not found')
+    # names bound before the loop to a dict built from kwargs
+    outer = set()
+    for st in fn.body:
+        if isinstance(st, ast.Assign) and isinstance(st.targets[0], ast.Name) and isinstance(st.value, (ast.DictComp, ast.Dict)):
+            outer.add(st.targets[0].id)
+    mutated = set()
+    for x in ast.walk(loop):
+        if isinstance(x, ast.Call) and isinstance(x.func, ast.Attribute) and isinstance(x.func.value, ast.Name) \
+                and x.func.value.id in outer and x.func.attr in INPLACE_METHODS:
+            mutated.add(x.func.value.id)
+        tg = x.targets if isinstance(x, ast.Assign) else ([x.target] if isinstance(x, ast.AugAssign) else [])
+        for t in tg:
+            if isinstance(t, ast.Subscript) and isinstance(t.value, ast.Name) and t.value.id in outer:
+                mutated.add(t.value.id)
+    # the dict actually passed to the centroid function
+    passed = None
+    for x in ast.walk(loop):
+        if isinstance(x, ast.Call) and isinstance(x.func, ast.Name) and x.func.id == 'centroid_func':
+            for kw in x.keywords:
+                if kw.arg is None and isinstance(kw.value, ast.Name):
+                    passed = kw.value.id
+    if passed is None:
+        raise Unsupported('centroid_sources: call of centroid_func(**kwargs) not found')
+    # is the passed dict (re)created inside the loop from the outer one?
+    fresh_per_source = any(isinstance(x, ast.Assign) and isinstance(x.targets[0], ast.Name) and x.targets[0].id == passed
+                           for x in ast.walk(loop))
+    adds_origin = sum(1 for x in ast.walk(loop) if isinstance(x, ast.BinOp) and isinstance(x.op, ast.Add)
+                      and 'slices_large' in ast.unparse(x) and '.start' in ast.unparse(x))
+    out = ('/- GENERATED by tools/extract_tables.py from photutils/centroids/core.py (centroid_sources loop) '
+           f'(sha256/16 {sha(src)}). DO NOT EDIT. -/\n'
+           'import PhotVerif.Model.Prelude\nnamespace PhotVerif.Gen.CentroidTable\n\n'
+           f'/-- the keyword dict built before the loop is modified inside the loop -/\n'
+           f'def outerKwargsMutatedInLoop : Bool := {"true" if mutated else "false"}\n'
+           f'/-- the dict passed to the centroid function is created anew for every source -/\n'
+           f'def kwargsFreshPerSource : Bool := {"true" if fresh_per_source else "false"}\n'
+           f'/-- number of `+ slices_large[k].start` re-basing additions in the loop (x and y) -/\n'
+           f'def originAdditions : Nat := {adds_origin}\n\n'
+           'end PhotVerif.Gen.CentroidTable\n')
+    return 'CentroidTable.lean', src, out
